@@ -406,6 +406,8 @@ def main(tier):
     results = pmap(run_shape, [(s, True) for s in shapes])
     for r in results:
         agg.add(r)
+    from . import mainwire
+    mainwire.add_to(agg, PROP, binary)
     by_role = {}
     for v in agg.violations:
         by_role.setdefault(v['role'], []).append(v)
@@ -446,7 +448,7 @@ def main(tier):
             'non-interference of the validators w.r.t. is_content_modified is decided in the C06-C09 harnesses, glob handling in C15',
         ],
         stubs=[],
-        must_cover=['mode:ModifiedOnly', 'mode:All'],
+        must_cover=['main', 'mode:ModifiedOnly', 'mode:All'],
         explanation='per change-list shape, all feasible MIR paths of the parse_file filter closure; classification formulas (inside tag / inside content / outside) asked of Z3 against the closure result')
 
 
